@@ -66,10 +66,19 @@ def readMultipleOf (b : RB) (chunk : Nat) : Option (RB × List Nat) :=
 
 def readAll (b : RB) : RB × List Nat := read b b.cap
 
+/-- `ReadMinimum(minimum)`: an error when `minimum ≥ size`; otherwise it sleeps until `minimum` bytes are readable
+(no model of time here: the precondition `bytesReadable b ≥ minimum` is the caller's) and reads everything -/
+def readMinimum (b : RB) (minimum : Nat) : Option (RB × List Nat) :=
+  if minimum ≥ b.cap then none else some (readAll b)
+
+
 /-- `DiscardStride(stride)`, `stride ≥ 1` -/
 def discardStride (b : RB) (stride : Nat) : RB :=
   let newRp := if b.w % stride > 0 then b.w - b.w % stride else b.w
   { b with r := newRp }
+
+/-- `DiscardAll()` -/
+def discardAll (b : RB) : RB := discardStride b 1
 
 /-! ### Operations, runs -/
 
@@ -187,6 +196,17 @@ def parseOp : P (Op × Res) := do
     let k ← nat
     pure (.discard k, .unit)
   | "O" => pure (.reopen, .unit)
+  | "N" => do
+    -- `ReadMinimum(k)`: refused like `ReadMultipleOf` when k ≥ size, otherwise (once k bytes are readable: the
+    -- harness only calls it then, the call would block) it is `Read(size)` = `ReadAll` (see `readMinimum`)
+    let k ← nat
+    let t2 ← tok
+    if t2 == "E" then pure (.readMult k, .err) else
+    if t2 == "-" then pure (.readAll, .bytes []) else
+    match hexBytesAux t2.toList with
+    | some bs => pure (.readAll, .bytes bs)
+    | none => fail "bad hex"
+  | "X" => pure (.discard 1, .unit)        -- `DiscardAll()` = `DiscardStride(1)`
   | _ => fail s!"bad op {t}"
 
 open P in
